@@ -97,7 +97,7 @@ theorem C11_wire_reads_and_ops_at_configured (wd : World) :
     nodeWire.stakeOp = Target.providerRegistry ∧ nodeWire.prepayOp = Target.bidderRegistry := by
   refine ⟨rfl, ?_, rfl, rfl⟩
   cases wd with
-  | mk s a => cases s <;> cases a <;> decide
+  | mk s a f e => cases s <;> cases a <;> cases f <;> cases e <;> decide
 
 /-- fail closed at the level of the whole node: a node whose stake or allowance reads were wired
 to any other contract never produces a commitment, whatever the chain holds -/
@@ -112,8 +112,10 @@ theorem C11_wire_op_success_iff (f : TxFate) : opReportsSuccess f = true ↔ f =
   cases f <;> simp [opReportsSuccess]
 
 /-- non-vacuity: the four worlds under the real wiring -/
-example : (scenario nodeWire ⟨true, true⟩).commitments = 1 ∧ (scenario nodeWire ⟨true, false⟩).commitments = 0 ∧
-    (scenario nodeWire ⟨false, true⟩).allowReadsAt = [] ∧ (scenario nodeWire ⟨true, false⟩).allowReadsAt = [Target.bidderRegistry] := by
+example : (scenario nodeWire { staked := true, allowed := true }).commitments = 1 ∧
+    (scenario nodeWire { staked := true, allowed := false }).commitments = 0 ∧
+    (scenario nodeWire { staked := false, allowed := true }).allowReadsAt = [] ∧
+    (scenario nodeWire { staked := true, allowed := false }).allowReadsAt = [Target.bidderRegistry] := by
   decide
 
 end Wiring
